@@ -205,24 +205,24 @@ End QueryDated.
 
 (* ------------------------------------------------------------ the dates of the balance report *)
 
-(* nothing is stored outside the dates D: per row and per tree *)
-Definition dates_within (D : option Z -> Prop) (r : report) : Prop :=
+(* nothing is stored outside the keys K: per row and per tree *)
+Definition keys_within (K : rkey -> Prop) (r : report) : Prop :=
   wf_report r /\
-  forall k, ~ D (fst k) ->
+  forall k, ~ K k ->
     (forall row, rcell row k r == 0) /\ tsum idk k (r_al r) == 0 /\ tsum idk k (r_eie r) == 0.
 
-Lemma dates_within_new (D : option Z -> Prop) : dates_within D new_report.
+Lemma keys_within_new (K : rkey -> Prop) : keys_within K new_report.
 Proof.
   split; [exact wf_new_report|]. intros k _. split; [intros row; apply rcell_new|].
   unfold new_report, empty_root. cbn [r_al r_eie]. rewrite tsum_unfold. unfold csum. cbn [esum fold_right]. split; ring.
 Qed.
 
-Lemma dates_within_insert (D : option Z -> Prop) r d a c v : D d -> dates_within D r -> dates_within D (report_insert r d a c v).
+Lemma keys_within_insert (K : rkey -> Prop) r d a c v : K (d, Some c) -> keys_within K r -> keys_within K (report_insert r d a c v).
 Proof.
   intros Hd [Hwf H]. split; [exact (proj2 (rcell_insert [] (None, None) r d a c v Hwf))|].
   intros k Hk. destruct (H k Hk) as (H1 & H2 & H3).
   assert (Hne : rkey_eqb (d, Some c) k = false).
-  { destruct (rkey_eqb (d, Some c) k) eqn:E; [|reflexivity]. apply rkey_eqb_eq in E. subst k. cbn [fst] in Hk. contradiction. }
+  { destruct (rkey_eqb (d, Some c) k) eqn:E; [|reflexivity]. apply rkey_eqb_eq in E. subst k. contradiction. }
   split; [|split].
   - intros row. rewrite (proj1 (rcell_insert row k r d a c v Hwf)), H1.
     unfold delta_at, contrib. change (idk (d, Some c)) with (d, Some c). rewrite Hne. destruct (acc_eqb a row); ring.
@@ -232,11 +232,17 @@ Proof.
     rewrite tsum_node_insert by lia. rewrite H3. unfold contrib. change (idk (d, Some c)) with (d, Some c). rewrite Hne. ring.
 Qed.
 
+(* the keys of a balance report: the end date of a shown period and a commodity *)
+Definition col_key (part : partition) (k : rkey) : Prop := col_date part (fst k) /\ snd k <> None.
+
+Lemma col_key_ins part d (c : commodity) : col_date part d -> col_key part (d, Some c).
+Proof. intros H. split; [exact H|cbn [snd]; discriminate]. Qed.
+
 (* every amount of the report is stored under the end date of a shown period *)
 Theorem report_dates cfg ds r part :
   bc_valuation cfg = None ->
   balance_report cfg ds = COk (r, part) ->
-  dates_within (col_date part) r.
+  keys_within (col_key part) r.
 Proof.
   intros Hv H. unfold balance_report in H. rewrite Hv in H. cbn [cbind] in H.
   unfold load in H. destruct (parse_directives ds) as [dl| |] eqn:Ep; try discriminate. cbn [cbind of_mresult] in H.
@@ -302,8 +308,30 @@ Proof.
       cbn [cbind of_presult fst snd] in H. inversion H; subst r6 part0. clear H.
       eexists _, d6. split; [exact E6|split; [reflexivity|]]. intros dp Hin. left. exact (Hfilt dp Hin). }
   destruct Hq as (days & days' & Hrun & -> & Hdates).
-  refine (query_days_dated (balance_query cfg part) (col_date part) (dates_within (col_date part))
-            (dates_within_insert (col_date part)) days new_report r days' _ (dates_within_new _) Hrun).
+  refine (query_days_dated (balance_query cfg part) (col_date part) (keys_within (col_key part))
+            (fun r0 d a c v Hd => keys_within_insert (col_key part) r0 d a c v (col_key_ins part d c Hd))
+            days new_report r days' _ (keys_within_new _) Hrun).
   intros dp Hin. cbn [balance_query q_date].
   destruct (Hdates dp Hin) as [Hs|[Hle Hs]]; [exact (align_in_span part _ Hpf Hs)|exact (align_start part _ Hpf Hle Hs)].
+Qed.
+
+(* the two consequences used below: a cell under the zero date, or under a date that is not a
+   column, or under the nil commodity, is zero *)
+Lemma col_key_some part col c : In col (end_dates part) -> col_key part (Some col, Some c).
+Proof. intros H. split; [exists col; split; [reflexivity|exact H]|discriminate]. Qed.
+
+Lemma col_key_inv part k : col_key part k -> exists col c, k = (Some col, Some c) /\ In col (end_dates part).
+Proof.
+  destruct k as [od oc]. intros [(e & E & He) Hc]. cbn [fst snd] in *. subst od. destruct oc as [c|]; [|congruence].
+  exists e, c. split; [reflexivity|exact He].
+Qed.
+
+Lemma classic_col_key part k : col_key part k \/ ~ col_key part k.
+Proof.
+  destruct k as [[e|] [c|]].
+  - destruct (in_dec Z.eq_dec e (end_dates part)) as [H|H]; [left; apply col_key_some; exact H|right].
+    intros Hk. destruct (col_key_inv _ _ Hk) as (col & c' & E & Hin). inversion E; subst. contradiction.
+  - right. intros [_ H]. apply H. reflexivity.
+  - right. intros [(e & E & _) _]. discriminate E.
+  - right. intros [_ H]. apply H. reflexivity.
 Qed.
